@@ -614,3 +614,125 @@ Section Confined.
     destruct cache_on; reflexivity.
   Qed.
 End Confined.
+
+(** ---------------------------------------------------------------------------
+    [permitted] is decidable by [permitted_b] (used by the spec component and the witnesses) *)
+Lemma permitted_b_true fs r : permitted_b fs r = true <-> permitted fs r.
+Proof.
+  unfold permitted_b, permitted. split.
+  - destruct (served_file (rq_path r)) as [[t|]|e|] eqn:Es; try discriminate.
+    destruct (fs t) as [c|] eqn:Ef; try discriminate.
+    intros H. apply andb_true_iff in H as [H Hl]. apply andb_true_iff in H as [Hh Ha].
+    exists t, c. repeat split; auto. destruct (is_hidden t c); [discriminate|reflexivity].
+  - intros [t [c [Es [Ef [Hh [Ha Hl]]]]]]. rewrite Es, Ef, Hh, Ha, Hl. reflexivity.
+Qed.
+Lemma permitted_b_false fs r : permitted_b fs r = false -> ~ permitted fs r.
+Proof. intros H P. apply permitted_b_true in P. congruence. Qed.
+
+(** a history violates the property: some reply carries the secret although its request is not permitted *)
+Definition violates (fs : bytes -> option bytes) (secret : bytes) (ops : list op) (obs : list obs) : Prop :=
+  exists i r rp lg, nth_error ops i = Some (OReq r) /\ nth_error obs i = Some (ObReply rp lg) /\
+                    leaks secret rp = true /\ ~ permitted fs r.
+
+Lemma violates_not_ok fs secret ops obs : violates fs secret ops obs -> ~ Forall2 (reply_ok fs secret) ops obs.
+Proof.
+  intros [i [r [rp [lg [Ho [Hb [Hl Hp]]]]]]] F. revert i Ho Hb.
+  induction F as [|o ob ops obs Hok F IH]; intros [|i] Ho Hb; cbn [nth_error] in *; try discriminate.
+  - inversion Ho; inversion Hb; subst. cbn [reply_ok] in Hok. auto.
+  - eapply IH; eassumption.
+Qed.
+
+(** ---------------------------------------------------------------------------
+    A concrete host: one file of each kind.  Used for the non-vacuity examples and for the
+    witnesses against the code before the two repairs. *)
+Definition W_SECRET : bytes := Eval vm_compute in B "SECRET-7f3a".
+Definition w_private : bytes := Eval vm_compute in B "SECRET-7f3a of secret.private".
+Definition w_ac : bytes := Eval vm_compute in B "!> allow-ips 10.0.0.1 &> cache server:full" ++ [10] ++ B "SECRET-7f3a for 10.0.0.1 only".
+Definition w_hide : bytes := Eval vm_compute in B "!> hide" ++ [10] ++ B "SECRET-7f3a for nobody".
+Definition w_plain : bytes := Eval vm_compute in B "public text".
+Definition w_fs (t : bytes) : option bytes :=
+  if beq t (B "secret.private") then Some w_private
+  else if beq t (B "ac.txt") then Some w_ac
+  else if beq t (B "h.txt") then Some w_hide
+  else if beq t (B "p.txt") then Some w_plain
+  else None.
+Definition w_err (s : N) : bytes := Eval vm_compute in B "<!DOCTYPE html><html><head><title>error</title></head></html>".
+Definition w_get (p : bytes) (addr : N) : op := OReq (mkReq M_GET p None [] addr).
+Definition w_run (fix_ext fix_lock cache_on : bool) (ops : list op) : list obs :=
+  run_g fix_ext fix_lock w_fs w_err cache_on true (fun _ => None) (fun _ _ => false) (fun _ => []) (fun _ _ => []) [] 0 ops.
+
+Lemma w_hypotheses :
+  (forall t c, w_fs t = Some c -> contains_sub W_SECRET c = true -> guarded t c = true) /\
+  (forall s, contains_sub W_SECRET (w_err s) = false) /\
+  (forall s, PresentLine.present_parse (w_err s) = Ok None).
+Proof.
+  split; [|split; intros s; vm_compute; reflexivity].
+  intros t c. unfold w_fs.
+  destruct (beq t (B "secret.private")) eqn:E1.
+  { apply beq_eq in E1. subst. intros H _. inversion H; subst. vm_compute. reflexivity. }
+  destruct (beq t (B "ac.txt")) eqn:E2.
+  { apply beq_eq in E2. subst. intros H _. inversion H; subst. vm_compute. reflexivity. }
+  destruct (beq t (B "h.txt")) eqn:E3.
+  { apply beq_eq in E3. subst. intros H _. inversion H; subst. vm_compute. reflexivity. }
+  destruct (beq t (B "p.txt")) eqn:E4; [|discriminate].
+  intros H Hc. inversion H; subst. vm_compute in Hc. discriminate.
+Qed.
+
+(** non-vacuity: on the repaired model the listed address does receive the content (and is
+    permitted), every other request of the history gets the 404 page *)
+Definition w_history : list op :=
+  [ w_get (B "/ac.txt") 1; w_get (B "/ac.txt") 2; w_get (B "/ac%2Etxt") 1; w_get (B "/ac%2etxt") 3;
+    w_get (B "/secret.private") 1; w_get (B "/secret%2Eprivate") 1; w_get (B "/%73ecret%2e%70rivate") 1;
+    w_get (B "/h.txt") 1; w_get (B "/%68.txt") 1; w_get (B "/p.txt") 9 ].
+Definition w_summary (ops : list op) (obs : list obs) : list (N * bool * bool) :=
+  map (fun '(o, ob) => match o, ob with
+                       | OReq r, ObReply rp _ => (rp_status rp, leaks W_SECRET rp, permitted_b w_fs r)
+                       | _, _ => (0, false, false)
+                       end) (combine ops obs).
+Lemma w_history_repaired :
+  w_summary w_history (w_run true true true w_history) =
+    [ (200, true, true); (404, false, false); (200, true, true); (404, false, false);
+      (404, false, false); (404, false, false); (404, false, false);
+      (404, false, false); (404, false, false); (200, false, false) ].
+Proof. vm_compute. reflexivity. Qed.
+
+(** the code before the first repair (file extension looked up on the raw path): [/secret%2Eprivate] *)
+Lemma private_spelling_v0_refuted_lemma :
+  forall cache_on, violates w_fs W_SECRET [w_get (B "/secret%2Eprivate") 2]
+                            (w_run false true cache_on [w_get (B "/secret%2Eprivate") 2]).
+Proof.
+  intros cache_on. exists 0%nat. eexists. eexists. eexists.
+  split; [reflexivity|]. split; [destruct cache_on; vm_compute; reflexivity|].
+  split; [destruct cache_on; vm_compute; reflexivity|]. apply permitted_b_false. vm_compute. reflexivity.
+Qed.
+
+(** the code before the second repair (a later [cache] directive overrides [allow-ips]): the listed
+    address first, then any other address is served from the cache *)
+Lemma cache_directive_v0_refuted_lemma :
+  violates w_fs W_SECRET [w_get (B "/ac.txt") 1; w_get (B "/ac.txt") 2]
+                         (w_run true false true [w_get (B "/ac.txt") 1; w_get (B "/ac.txt") 2]).
+Proof.
+  exists 1%nat. eexists. eexists. eexists.
+  split; [reflexivity|]. split; [vm_compute; reflexivity|].
+  split; [vm_compute; reflexivity|]. apply permitted_b_false. vm_compute. reflexivity.
+Qed.
+
+Lemma reply_ok_meaning_lemma fs secret r rp lg :
+  reply_ok fs secret (OReq r) (ObReply rp lg) ->
+  contains_sub secret (rp_body rp) = true \/ contains_sub secret (rp_identity rp) = true ->
+  exists t c, served_file (rq_path r) = Ok (Some t) /\ fs t = Some c /\
+              is_private t = false /\ has_name N_HIDE (entries_of c) = false /\
+              has_name N_ALLOW (entries_of c) = true /\ listed (rq_addr r) (entries_of c) = true.
+Proof.
+  cbn [reply_ok]. intros H Hl.
+  assert (leaks secret rp = true) as L by (unfold leaks; apply orb_true_iff; exact Hl).
+  destruct (H L) as [t [c [Es [Ef [Hh [Ha Hli]]]]]].
+  unfold is_hidden in Hh. apply orb_false_iff in Hh as [H1 H2].
+  exists t, c. repeat split; assumption.
+Qed.
+
+Lemma spelling_example_lemma :
+  pct_encode [None; None; Some (true, true)] (B "/s.private") = B "/s%2Eprivate" /\
+  pct_encode [None; Some (false, false); Some (false, false)] (B "/s.private") = B "/%73%2eprivate" /\
+  mask_ok [None; None; Some (true, true)] (B "/s.private") = true.
+Proof. vm_compute. repeat split; reflexivity. Qed.
